@@ -69,7 +69,7 @@ static void prop(Tape &t, Ctx &c) {
     sslSessionId_t *sid = nullptr; struct SG { sslSessionId_t *&s; ~SG() { if (s) matrixSslDeleteSessionId(s); } } sg{ sid };
     auto mkcfg = [&](Config &cc, Config &sc) { cc.client = true; sc.client = false; cc.versions = sc.versions = { ver }; cc.suites = { su.id }; cc.auth = sc.auth = su.auth;
         cc.entropy_stream = 1; sc.entropy_stream = 2; cc.client_auth = sc.client_auth = cauth; sc.cert_cb = cb_strict; if (early) { cc.sid = sid; sc.max_early_data = 16384; } };
-    if (early) { if (matrixSslNewSessionId(&sid, NULL) < 0) throw Discard{}; Pair p0; Config c0, s0; mkcfg(c0, s0); if (p0.s.open(s0) < 0 || p0.c.open(c0) < 0 || !p0.run(60)) throw Discard{}; p0.run(10); }
+    if (early) { if (matrixSslNewSessionId(&sid, NULL) < 0) throw Discard{}; Pair p0; Config c0, s0; mkcfg(c0, s0); if (p0.s.open(s0) < 0 || p0.c.open(c0) < 0) throw Discard{}; VF_CHECK(p0.run(60), "harness-priming-handshake-failed", "priming session for the early-data scenario did not complete"); p0.run(10); }
     Pair p; Config cc, sc; mkcfg(cc, sc);
     if (p.s.open(sc) < 0 || p.c.open(cc) < 0) throw Discard{};
     if (early) { c.count("early-data-capable-session"); p.c.sel(); if (matrixSslGetMaxEarlyData(p.c.ssl) > 0 && t.coin()) { p.c.send(amsg(3, 40), 1); c.count("client-sent-early-data"); } }
